@@ -616,6 +616,22 @@ func (c *lcPath) assumeMonotone(h *ssa.BasicBlock) {
 		i0 := c.num(init)
 		if dir < 0 {
 			c.assume(i0.add(me, -1))
+			// a counter that starts non-negative and is only lowered where it is known to be large enough stays non-negative
+			if c.nonNeg(i0) {
+				keeps := true
+				for k, p := range h.Preds {
+					if !h.Dominates(p) {
+						continue
+					}
+					b := ph.Edges[k].(*ssa.BinOp)
+					if !proveNonNeg(lin(b), ineqs(factsOf(c.fn).At(p)), nil) {
+						keeps = false
+					}
+				}
+				if keeps {
+					c.assume(me)
+				}
+			}
 		} else {
 			c.assume(me.add(i0, -1))
 		}
